@@ -4,7 +4,8 @@
 (* implementation code:                                                    *)
 (*  - the specified renamer (Scope.Rename) is alpha-equivalence preserving,*)
 (*    depth-naming, minimal and idempotent on EVERY well-scoped tree up to *)
-(*    a size bound over the colliding names x, xx;                         *)
+(*    a size bound over the colliding names x, xx, and keeps the           *)
+(*    denotation (Hctl.Sat) on a fixed Kripke structure;                   *)
 (*  - the canonisation ALGORITHM of the code (Evaluator.Canon: one pass in *)
 (*    text order with a single unscoped map) identifies exactly the        *)
 (*    sub-formulae that are equal up to a consistent renaming              *)
@@ -33,7 +34,7 @@ ClosedOK == {t \in AllTrees : WellScoped(t, {})}
 PreSubs == UNION {SubsOf(Rename(t)) : t \in ClosedOK}       \* sub-formulae of preprocessed trees
 
 VARIABLES a, b
-Init == a \in AllTrees /\ b \in PreSubs \cup {[op |-> "prop", name |-> "none"]}
+Init == a \in AllTrees /\ b \in PreSubs \cup ClosedOK \cup {[op |-> "prop", name |-> "none"]}
 Next == UNCHANGED <<a, b>>
 (* C07, on the specification's own renamer *)
 RenameOK ==
@@ -41,6 +42,14 @@ RenameOK ==
     LET r == Rename(a) IN
       /\ AlphaEq(r, a) /\ DepthNamed(r, 0) /\ Cardinality(QuantNames(r)) = Depth(a)
       /\ Rename(r) = r /\ WellScoped(r, {})
+(* C07 "without changing meaning", at the level of the reference semantics: on a fixed three-state *)
+(* Kripke structure (a cycle with a branch and a self-loop) the renamed tree denotes the same set    *)
+K3 == (0 :> {1, 2}) @@ (1 :> {0}) @@ (2 :> {2})
+P3 == [name \in {"p"} |-> {0, 2}]
+D3 == [l \in {"d"} |-> {0, 1}]
+RenameKeepsMeaning ==
+  WellScoped(a, {}) =>
+    Sat(K3, {0, 1, 2}, P3, D3, Rename(a), <<>>) = Sat(K3, {0, 1, 2}, P3, D3, a, <<>>)
 (* C09, on the code's canonisation algorithm; a ranges over PreSubs as well when it is in it *)
 CanonOK ==
   (a \in PreSubs /\ b \in PreSubs) =>
@@ -49,4 +58,18 @@ CanonOK ==
     /\ LET w == CanonWalk(a, [map |-> EmptyMap, n |-> 0]) IN
          /\ Canon(w.t).text = Canon(a).text
          /\ \A x, y \in FreeVars(a) : x # y => w.st.map[x] # w.st.map[y]
+(* C09, second half, on the code's duplicate marker (Evaluator.MarkDuplicates): for every pair of   *)
+(* closed trees (a, b both well-scoped), every marked duplicate with counter n has at least n + 1    *)
+(* occurrences that are equal to it up to renaming AND have identical domains of their free          *)
+(* variables (Scope.IsOccurrenceOf -- the independent notion)                                        *)
+DupsOK ==
+  (WellScoped(a, {}) /\ b \in ClosedOK) =>
+    LET trees == <<Rename(a), Rename(b)>>
+        dups == MarkDuplicates(trees)
+        occ == OccAll(trees, 1)
+    IN \A key \in DOMAIN dups :
+         LET rep == CHOOSE i \in 1..Len(occ) : KeyOf(Canon(occ[i].t), occ[i].env) = key
+             c == CanonWalk(occ[rep].t, [map |-> EmptyMap, n |-> 0]).t
+         IN  /\ dups[key] >= 1
+             /\ Cardinality({i \in 1..Len(occ) : IsOccurrenceOf(occ[i], c, key.d)}) >= dups[key] + 1
 =============================================================================
